@@ -28,6 +28,7 @@ J gen_seq(const std::string& prop, uint64_t run_seed, const std::string& tier) {
   knobs.set("rm", kn.below(2));
   knobs.set("maxreq", kn.chance(1, 4) ? 4096 : (1u << 20));
   knobs.set("fill", kn.below(4) == 0 ? kn.range(1, 2) : 0);   // fresh memory: mostly 0xAA, sometimes all-zero or all-ones
+  knobs.set("fpmode", kn.below(4) == 0 ? 1 : 0);   // a quarter of the runs with FTZ/DAZ set in the thread's MXCSR
   plan.set("knobs", knobs);
   GenProfile gp; gp.max_depth = 3; gp.max_kids = 3; gp.big_len_cap = 200;
   J conns = J::arr();
